@@ -51,6 +51,12 @@ func c11Run(rc *simrt.RunCtx) {
 		rl.f.delErrPm = []int{300, 1000}[rc.Pick(2, "relay.k.delerrpm")]
 		rc.Knob("relay.delerr", rl.f.delErrPm)
 	}
+	if rc.Pick(3, "knob.close-error") == 0 {
+		// closing the client's transport reports an error (an already broken
+		// websocket does): the connection must count as closed all the same
+		st.closeErrPm = []int{300, 1000}[rc.Pick(2, "knob.close-errorpm")]
+		rc.Knob("transport.close-error", st.closeErrPm)
+	}
 	rc.Knob("case", fmt.Sprintf("maxV=%d/%d rounds=%d", maxVC, maxVS, rounds))
 	passSID, _ := st.S.data.SID() // the passphrase-derived rendezvous
 	// nobody closes on completion by itself: the history decides
